@@ -34,7 +34,7 @@ func HC20_concurrentFormat() {
 	files := make([]string, n)
 	fails := make([]bool, n)
 	for i := 0; i < n; i++ {
-		formats[i] = Format(vfChoice(fmt.Sprint("format", i), 6)) // 0 = NoFormat, 5 = not a format
+		formats[i] = Format(vfChoice(fmt.Sprint("format", i), vfParam("C20.formats", 6))) // 0 = NoFormat, 5 = not a format
 		if i > 0 {
 			vfAssume(formats[i-1] <= formats[i]) // the goroutines run the same code: requests are symmetric
 		}
